@@ -4,6 +4,7 @@ import (
 	"bytes"
 	"fmt"
 	"io"
+	"math/rand/v2"
 	"net"
 	"strings"
 	"sync"
@@ -459,9 +460,24 @@ func init() {
 			Assumptions: []string{"telnet peers stay silent through the negotiation window before the session counts as up"},
 			QuickRuns:   600,
 			ThoroughS:   300,
+			Legs: []Leg{
+				{Name: "D", QuickRuns: 600, Share: 0.75},
+				{Name: "OS", Prop: "C16S", QuickRuns: 24, Share: 0.25, Workers: 4},
+			},
 		},
 		Gen: genC16,
 		New: func() Scenario { return &C16{} },
 		Run: runC16,
 	})
+}
+
+// c16DataPCG generates the payloads the stand-in binary generates (same PCG stream).
+func c16DataPCG(seed uint64, n int, tag byte) []byte {
+	r := rand.New(rand.NewPCG(seed, uint64(tag)))
+	b := make([]byte, n)
+	for i := range b {
+		b[i] = byte(r.UintN(256))
+	}
+
+	return b
 }
